@@ -146,6 +146,33 @@ for comments in (False, True):
             must = {"RAW", "DOC", "TAG", "OUTPUT", "CONTENT"} | ({"COMMENT"} if comments else set())
             return z3.BoolVal(ok and must <= {x.upper() for x in names})
         c.ensures("each-rule-is-delimited-by-its-own-kind-of-delimiter", roles)
+
+        def flat(t):
+            """the pattern as text with `{parameter}` for re.escape(parameter)"""
+            if z3.is_string_value(t):
+                return t.as_string()
+            if z3.is_app(t) and t.decl().name() == "re_escape" and z3.is_const(t.arg(0)):
+                return "{" + t.arg(0).decl().name() + "}"
+            if z3.is_app(t) and t.decl().kind() == z3.Z3_OP_SEQ_CONCAT:
+                return "".join(flat(a) for a in t.children())
+            return "<?>"
+
+        def content_shape(r):
+            """whitespace control means the same whatever the delimiters and whether or not comments are enabled:
+            a text run ends before ANY configured opening delimiter, and the optional hyphen that strips the run's
+            trailing whitespace is looked for after every one of them (one group around the whole alternation)"""
+            import re as _re
+            opening = {"tag_start_string", "statement_start_string"} | ({"comment_start_string"} if comments else set())
+            found = False
+            ok = True
+            for n, p in r.st.ghost.get("rules", []):
+                if "CONTENT" not in name_of(n).upper():
+                    continue
+                found = True
+                m_ = _re.search(r"\(\?=\(\(((?:\{\w+\}\|)+\{\w+\})\)\(\?P<rstrip>-\?\)\)\|\\Z\)$", flat(p))
+                ok = ok and m_ is not None and set(_re.findall(r"\{(\w+)\}", m_.group(1))) == opening
+            return z3.BoolVal(found and ok)
+        c.ensures("the-text-rule-looks-for-the-whitespace-control-hyphen-after-every-opening-delimiter", content_shape)
         c.cover("rules-built", lambda r: z3.BoolVal(bool(r.st.ghost.get("rules"))))
         c.assume_note("re.escape(s) is a pattern that matches exactly the text s (DESIGN 3); uninterpreted here")
         c.assume_note("rule names are compared case-insensitively with the token kinds OUTPUT/CONTENT of liquid.token")
@@ -442,7 +469,19 @@ def run(m):
             outs[name] = Environment(**kw).from_string(lsrc).render()
         except Exception as e:
             outs[name] = f"{type(e).__name__}"
-    return {"violated": got != want or len(set(outs.values())) != 1, "observed": {"default": want, "custom": got, "liquid-tag": outs}}
+    # whitespace control before a tag / an output statement, with and without comment delimiters configured
+    wsrc = "a \n {%- if x %} b {% endif %} c \t{{- x }} d"
+    ws = {}
+    for name, kw, rw in (("default", {}, {}), ("comments", dict(template_comments=True), {}),
+                         ("custom-comments", dict(template_comments=True, comment_start_string="/*", comment_end_string="*/", tag_start_string="<%", tag_end_string="%>"), {"{%": "<%", "%}": "%>"})):
+        text = wsrc
+        for a, b in rw.items():
+            text = text.replace(a, b)
+        try:
+            ws[name] = Environment(**kw).from_string(text).render(x=1)
+        except Exception as e:
+            ws[name] = f"{type(e).__name__}"
+    return {"violated": got != want or len(set(outs.values())) != 1 or len(set(ws.values())) != 1, "observed": {"default": want, "custom": got, "liquid-tag": outs, "whitespace-control": ws}}
 '''
 
 REPLAY_MEMO = r'''
